@@ -129,14 +129,15 @@ structure Validator where
   deriving Repr, BEq
 
 structure Params where
-  outgoingTimeoutMs : Nat := 60001
-  targetTimeout : Nat := 60001
+  outgoingTimeoutMs : Nat := 86399999
+  targetTimeout : Nat := 86400000
   avgBlock : Nat := 5000
   avgEth : Nat := 15000
   avgBsc : Nat := 5000
-  window : Nat := 10
-  gravityId : String := "hub"
+  window : Nat := 10000
+  gravityId : String := "defaultgravityid"
   voteNum : Int := 66
+  voteAdd : Int := 99
   voteDen : Int := 100
   deriving Repr
 
